@@ -366,6 +366,8 @@ def strat_units(ctx):
     return case(True)
 
 
+RULE = RULE + " " + ('Since seeded round 4 one script in three is not built directly: an RDScript with other time quantities is created, its t_max is read and a dictionary is made from it, and only then t_sample, time_step, sampling_interval, t_max and the policy are assigned through the public setters; it must run exactly like the directly built script.')
+
 FACETS = [
     Facet("exact", check_exact, strategy=strat_exact, examples=(1600, 40000), shards=(12, 16), setup=sim.setup_plain),
     Facet("units", check_units, strategy=strat_units, examples=(500, 12000), shards=(4, 16), setup=sim.setup_plain),
